@@ -146,13 +146,27 @@ def _changed(before, after, uid):
 
 # ------------------------------------------------------------------ workloads
 def small_layout(r, i):
-    return {'single': True, 'zero_mode': bool(i % 2), 'units': {1: SM.unit_layout(r, share=(i % 4 == 0), small=True)}}
+    layout = {'single': True, 'zero_mode': bool(i % 2), 'units': {1: SM.unit_layout(r, share=(i % 4 == 0), small=True)}}
+    # how the addressing mode reaches the context: explicit keyword (usual), the process-wide default alone, or an explicit keyword
+    # against a process-wide default that says the opposite
+    if i % 5 == 3:
+        layout['via_defaults'] = True
+    elif i % 5 == 4:
+        layout['defaults_opposite'] = True
+    return layout
 
 
 def warm(run, w, r, uniq, n=6):
     for m in gen_history(r, w.layout, n, uniq):
         # valid-biased prefix so that the state is non-trivial; mismatches here are C04's business but are still reported
         step(run, w, m, {'phase': 'prefix', 'layout': w.layout, 'm': m})
+    if r.random() < 0.25:
+        # the application resets its datastore between requests: values go back to zero, the table extents stay what they were
+        w.slave.reset()
+        w.tgt.reset()
+        run.count('context_resets')
+        if w.dump() != w.model.dump():
+            run.violation('reset:store', {'phase': 'reset', 'layout': w.layout}, 'after ModbusSlaveContext.reset() the store differs from the model: %s' % _diff(w.dump(), w.model.dump()))
 
 
 def sweep_fc5(run, r, uniq):
